@@ -427,7 +427,7 @@ func ScriptOutcome(kind string, script []string, http bool) (class string, meta 
 				meta = status
 			}
 			stop = true
-		case "setmeta":
+		case "setmeta", "setmeta201":
 			if !http || replied {
 				// panics with a plain string
 				if !replied {
